@@ -6,7 +6,9 @@ scipy.optimize.root_scalar are wrapped inside this process, the polynomial pytho
 numpy.roots is compared with the exactly recomputed test polynomial, and the model applies the
 selection logic of stability_margins to the recorded roots.  The final gm/pm/sm/wpc/wgc/wms and
 the bandwidth are compared with the model's exact values."""
+import contextlib
 import inspect
+import io
 import math
 import warnings
 from fractions import Fraction
@@ -38,6 +40,16 @@ Z_GRID = np.exp(1j * THETA_GRID)
 WSCALES = [-40, -34, -30, -30, -30, -24, -20, -10, 10, 20, 30, 40]
 DT_LEGACY = ["T", "D1/2", exact.dt_tok(0.1)]
 DT_WIDE = ["D2", "D2", "D4", "D5/2", "D10", "D64", "D1/1024", "D3", "D1000"]
+# sampled-data (FRD) route: tolerance of the defining equations on the exact loop (the spline interpolation of the
+# data is an external; its error on the generated grids is measured per case and must be below FR_INTERP), sign
+# decisions on the data are compared only when they have the margin FR_SIGN / FR_SLOPE
+FR_TAU = 1e-3          # smallest tolerance of a defining equation; the tolerance of a case is 1e3 x the measured
+FR_TAU_MAX = 1e-2      # interpolation error, between FR_TAU and FR_TAU_MAX (phase: 100 x that, in degrees)
+FR_INTERP = 1e-5       # grids on which the spline through the samples is further from the loop are not compared
+FR_SHALLOW = 0.05      # a crossing must cut the real axis / the unit circle at an angle above this (radians, about)
+FR_SIGN = 1e-9
+FR_SLOPE = 1e-12
+FR_STORES = ["ndarray"] * 5 + ["fresh", "readonly", "view", "rows2d", "rows2d", "lists"]
 
 
 # ----------------------------------------------------------------------------------------------
@@ -362,6 +374,184 @@ def classify_exc(e):
     return type(e).__name__
 
 
+# ----------------------------------------------------------------------------------------------
+# sampled-data (FRD) route
+# ----------------------------------------------------------------------------------------------
+def fr_loop_ok(num, den):
+    """loops whose frequency response is representable by samples: no pole / zero on the imaginary axis at
+    w > 0 (the response is continuous and non-zero on the grid) and not real-valued on the whole axis"""
+    for p in (num, den):
+        sq = iw_sqr(*poly_iw(p))
+        if sturm_count_from(sq, F0, False) != 0:
+            return False
+    t180 = oracle_polys_c(num, den)["real"]
+    return any(c != 0 for c in t180)
+
+
+def fr_data(case):
+    """the Bode data of the case: omega (log grid), the float response L(j omega), mag, phase in degrees"""
+    num, den = case_coeffs(case)
+    nf = np.array([float(c) for c in num])
+    df = np.array([float(c) for c in den])
+    lo, hi, n = case["grid"]
+    om = np.logspace(lo, hi, int(n))
+    resp = np.polyval(nf, 1j * om) / np.polyval(df, 1j * om)
+    ph = np.angle(resp)
+    if case.get("unwrap"):
+        ph = np.unwrap(ph)
+    return om, resp, np.abs(resp), ph * 180.0 / np.pi
+
+
+def fr_interp_error(case, om, resp):
+    """measured relative error of the cubic-spline interpolation of the data in omega (what a smooth FRD
+    evaluates between the samples; scipy's FITPACK is an external): the interpolating spline through the samples
+    is compared with the loop itself at the geometric midpoints of the grid intervals"""
+    from scipy.interpolate import splrep, splev
+    if len(om) < 16:
+        return math.inf
+    num, den = case_coeffs(case)
+    nf = np.array([float(c) for c in num])
+    df = np.array([float(c) for c in den])
+    mid = np.sqrt(om[:-1] * om[1:])
+    true = np.polyval(nf, 1j * mid) / np.polyval(df, 1j * mid)
+    est = splev(mid, splrep(om, resp.real, s=0)) + 1j * splev(mid, splrep(om, resp.imag, s=0))
+    return float(np.max(np.abs(est - true) / np.abs(true)))
+
+
+def results_close(a, b, tau):
+    """two canonical results agree (same shape, floats within tau relative; nan = nan, inf = inf)"""
+    if ("ok" in a) != ("ok" in b):
+        return False
+    if "ok" not in a:
+        return a.get("err") == b.get("err")
+    if set(a["ok"]) != set(b["ok"]):
+        return False
+    for k in a["ok"]:
+        x, y = a["ok"][k], b["ok"][k]
+        if isinstance(x, list) != isinstance(y, list):
+            return False
+        xs, ys = (x, y) if isinstance(x, list) else ([x], [y])
+        if len(xs) != len(ys):
+            return False
+        for u, v in zip(xs, ys):
+            if not close_rel(unfl(u), unfl(v), tau, 0.0):
+                return False
+    return True
+
+
+def canon_result(keys, r, arrays):
+    if arrays:
+        return {"ok": {k: [fl(x) for x in np.atleast_1d(v)] for k, v in zip(keys, r)}}
+    return {"ok": {k: fl(v) for k, v in zip(keys, r)}}
+
+
+def fr_call(call, triple, obj):
+    """one call of the history; `triple` = (mag, phase, omega) containers or None, `obj` = FRD / LTI object or None"""
+    api, returnall, pack = call
+    try:
+        with contextlib.redirect_stdout(io.StringIO()), warnings.catch_warnings():
+            warnings.simplefilter("ignore")
+            if obj is not None and pack == "frd-method":
+                r = ct.stability_margins(obj, returnall=returnall, method="frd")
+                return canon_result(("gm", "pm", "sm", "wpc", "wgc", "wms"), r, returnall)
+            if api == "margin":
+                if obj is not None:
+                    r = ct.margin(obj)
+                elif pack == "args":
+                    r = ct.margin(*triple)
+                else:
+                    r = ct.margin(tuple(triple))
+                return canon_result(("gm", "pm", "wpc", "wgc"), r, False)
+            if obj is not None:
+                arg = obj
+            elif pack == "list":
+                arg = list(triple)
+            elif pack == "array":
+                arg = triple
+            else:
+                arg = tuple(triple)
+            r = ct.stability_margins(arg, returnall=returnall)
+            return canon_result(("gm", "pm", "sm", "wpc", "wgc", "wms"), r, returnall)
+    except Exception as e:  # noqa
+        return {"err": classify_exc(e), "exc": "%s: %s" % (type(e).__name__, str(e)[:200])}
+
+
+def fr_history(case, om, resp, mag, ph, only_fresh=None):
+    """run the calls of the case on data the caller keeps; returns (results, result of the LAST call on fresh
+    copies of the data, names of the caller's arrays that were modified).  `only_fresh = k`: just run call k on
+    fresh copies and return its result."""
+    source, store = case["source"], case["store"]
+    pristine = {"mag": mag.tobytes(), "phase": ph.tobytes(), "omega": om.tobytes(), "resp": resp.tobytes()}
+
+    def fresh_triple():
+        return [mag.copy(), ph.copy(), om.copy()]
+    kept, watch, obj = None, {}, None
+    if source == "bode3":
+        if store == "ndarray":
+            kept = fresh_triple()
+            watch = dict(zip(("mag", "phase", "omega"), kept))
+        elif store == "readonly":
+            kept = fresh_triple()
+            for a in kept:
+                a.setflags(write=False)
+            watch = dict(zip(("mag", "phase", "omega"), kept))
+        elif store == "view":           # strided views of a larger array the caller owns
+            big = np.zeros((3, 2 * len(om)))
+            big[0, ::2], big[1, ::2], big[2, ::2] = mag, ph, om
+            kept = [big[0, ::2], big[1, ::2], big[2, ::2]]
+            watch = dict(zip(("mag", "phase", "omega"), kept))
+        elif store == "rows2d":         # one 3 x n array: unpacking yields views of its rows
+            arr = np.array([mag, ph, om])
+            kept = arr
+            watch = {"mag": arr[0], "phase": arr[1], "omega": arr[2]}
+        elif store == "lists":
+            kept = [list(map(float, mag)), list(map(float, ph)), list(map(float, om))]
+    elif source in ("frdobj", "frdobj-smooth"):
+        def mk():
+            return ct.FrequencyResponseData(resp.copy(), om.copy(), smooth=(source == "frdobj-smooth"))
+        if store == "kept" and only_fresh is None:
+            obj = mk()
+            pristine["obj"] = (np.array(obj.frdata, copy=True).tobytes(), np.array(obj.omega, copy=True).tobytes())
+    results = []
+    sysobj = None
+    if source == "lti-frd":
+        sysobj = build(dict(case, form=store))
+    if only_fresh is not None:
+        call = case["calls"][only_fresh]
+        if source == "bode3":
+            if store == "lists":
+                return fr_call(call, kept, None)
+            if store == "rows2d" and call[0] == "stability_margins":
+                return fr_call([call[0], call[1], "array"], np.array([mag, ph, om]), None)
+            return fr_call(call, fresh_triple(), None)
+        if source == "lti-frd":
+            return fr_call([call[0], call[1], "frd-method"], None, build(dict(case, form=store)))
+        return fr_call(call, None, mk())
+    for call in case["calls"]:
+        if source == "bode3":
+            if store == "fresh":
+                results.append(fr_call(call, fresh_triple(), None))
+            elif store == "rows2d":
+                c2 = list(call)
+                if call[0] == "stability_margins":
+                    c2[2] = "array"
+                    results.append(fr_call(c2, kept, None))
+                else:
+                    results.append(fr_call(call, [kept[0], kept[1], kept[2]], None))
+            else:
+                results.append(fr_call(call, kept, None))
+        elif source == "lti-frd":
+            results.append(fr_call([call[0], call[1], "frd-method"], None, sysobj))
+        else:
+            results.append(fr_call(call, None, obj if obj is not None else mk()))
+    modified = [k for k, a in watch.items() if np.asarray(a).tobytes() != pristine[k]]
+    if obj is not None and "obj" in pristine:
+        now = (np.array(obj.frdata, copy=True).tobytes(), np.array(obj.omega, copy=True).tobytes())
+        if now != pristine["obj"]:
+            modified.append("frd-object")
+    return results, modified
+
+
 class Recorder:
     """wraps numpy.roots, scipy.optimize.minimize and scipy.optimize.root_scalar while the
     implementation runs; records arguments and results keyed by the calling function."""
@@ -472,10 +662,13 @@ class C12(Family):
     extra_modules = ["CtrlVerif.Props.C12Gen"]
     # source-text tie of the selection logic (notes/NOTES-py2lean-margins.md): Generated/Marg*.lean are rewritten by
     # core/py2lean_marg.py from stability_margins / margin / phase_crossover_frequencies / the _poly_* tails / LTI.bandwidth
+    # sampled-data route and histories of calls (Model/MarginsFrd.lean)
+    extra_modules += ["CtrlVerif.Props.C12Frd"]
     extra_modules += ["CtrlVerif.Props.C12GenSel", "CtrlVerif.Props.C12GenSm", "CtrlVerif.Props.C12GenSmRet",
                       "CtrlVerif.Props.C12GenSmTop", "CtrlVerif.Props.C12GenSmZ", "CtrlVerif.Props.C12GenSmCor",
                       "CtrlVerif.Props.C12GenMargin", "CtrlVerif.Props.C12GenBw", "CtrlVerif.Props.C12GenReal",
                       "CtrlVerif.Props.C12GenEx"]
+    extra_modules += ["CtrlVerif.Props.C12Head", "CtrlVerif.Props.C12GenHead"]
 
     def pre_build(self):
         import os
@@ -487,7 +680,11 @@ class C12(Family):
         from core import py2lean_marg
         problems2, info2 = py2lean_marg.regenerate(repo, leanproj.LEAN)
         self.gen_info.update(info2)
-        return problems + problems2
+        # source-text tie of the head of stability_margins (notes/NOTES-py2lean-heads.md)
+        from core import py2lean_heads
+        problems3, info3 = py2lean_heads.regenerate(repo, leanproj.LEAN)
+        self.gen_info.update(info3)
+        return problems + problems2 + problems3
     externals = [
         "numpy.roots (returns all complex roots of the polynomial it is given; the polynomial is "
         "compared with the exactly recomputed one and the residual of every recorded root is recorded)",
@@ -496,14 +693,21 @@ class C12(Family):
         "found by an unverified grid search; x0 and bounds handed to it are recorded)",
         "scipy.optimize.root_scalar(bisect) in bandwidth (bracket compared, residual at the root checked)",
         "freqplot._default_frequency_range (the sampling grid of bandwidth is taken from the implementation)",
-        "abs/angle/exp/10**x (evaluated in binary64 by the harness on the model's exact complex values)"]
+        "abs/angle/exp/10**x (evaluated in binary64 by the harness on the model's exact complex values)",
+        "scipy.optimize.brentq / minimize_scalar and the FITPACK spline of a smooth FRD in the sampled-data route "
+        "(the grid intervals handed to them are the model's; the spline's distance from the loop is measured per case "
+        "at the interval midpoints and sets the tolerance of the defining equations: 1e3 x that, between 1e-3 and 1e-2)"]
     assumptions = [
         "crossings are simple: cases where two selected frequencies, two candidate minima of the "
         "default selection, or a sign decision are closer than the stated guard are counted as guarded, not compared",
         "IEEE arithmetic is exact on integer/dyadic coefficient products below 2^50 (regime E: the "
         "polynomial given to numpy.roots must equal the model's coefficient list exactly)",
-        "discrete time is modelled for epsw = 0; the FRD-based method (method='frd', 3-tuple input, "
-        "the numerical-inaccuracy fallback) is outside the model",
+        "discrete time is modelled for epsw = 0; the numerical-inaccuracy fallback and method='frd' (the code's own "
+        "frequency grid) are outside the model; the sampled-data route is modelled for Bode data / FRD objects of "
+        "continuous-time loops without poles or zeros on the imaginary axis at w > 0, on logarithmic grids of 100-270 "
+        "points per decade; a part (phase / gain / stability) is compared only when every sign decision on the data has "
+        "a relative margin of 1e-9 (slope of |1+L|: 1e-12), the exact crossings are at least 4 grid intervals apart and "
+        "from the grid ends, lie one per bracket, and cut the real axis / unit circle at an angle above 0.05",
         "time-scaled loops use powers of two only (uniform scaling, exact in binary64); frequency tolerances and "
         "the not-simple guards are relative to the time scale (continuous) / to min(1, 1/dt) (discrete)",
         "a discrete stability margin is reported as not minimal only when a candidate on the unit circle has "
@@ -517,8 +721,15 @@ class C12(Family):
             "margin / phase_crossover_frequencies / bandwidth (dbdrop in {-3,-6,-1/2,-20, 0, 3}); for every "
             "discrete stability_margins case up to 6 candidate points exactly on |z| = 1 (local minima of |1+L| on a "
             "4097-point grid, refined) are handed to the model, which refutes a reported stability margin that "
-            "is not the minimum; non-trivial = order >= 2 or a non-default option; distinct = distinct canonical "
-            "serialisation")
+            "is not the minimum; HISTORIES: n/16 cases run 1-3 successive calls (margin(mag, phase, omega), "
+            "stability_margins((mag, phase, omega)) as tuple / list / 3 x n array, returnall or default, FRD objects "
+            "smooth or not, method='frd') on Bode data of a continuous loop that the caller KEEPS between the calls "
+            "(float ndarrays, read-only arrays, strided views, rows of a 2-D array, Python lists, fresh copies as the "
+            "control group): every call of the history must satisfy the defining equations on the exact loop, report one "
+            "crossing per sign change of the data (Lean model of the bracket selection) and select the smallest exact "
+            "margin; the caller's arrays must be bit-identical afterwards; n/25 polynomial-route cases repeat the call 2-3 "
+            "times on the same system object; non-trivial = order >= 2 or a non-default option; distinct = distinct "
+            "canonical serialisation")
 
     def __init__(self):
         self._cache = {}
@@ -613,6 +824,43 @@ class C12(Family):
                                      "via": rng.choice(["method", "func"]),
                                      "dbdrop": rng.choice(["-3", "-3", "-3", "-6", "-1/2", "-20", "0", "3"])}, 0.2)
 
+    def gen_fr(self, rng, tier):
+        """sampled-data route with a HISTORY: Bode data (mag, phase in degrees, omega) / an FRD object of a
+        continuous-time loop on a logarithmic grid, kept by the caller and used for 1-3 successive calls"""
+        num, den = ["4"], ["1", "3", "3", "1"]
+        for _ in range(20):
+            cn, cd = self.rnd_loop(rng, False, 4)
+            if fr_loop_ok([Fraction(x) for x in cn], [Fraction(x) for x in cd]):
+                num, den = cn, cd
+                break
+        r = rng.random()
+        source = "bode3" if r < 0.7 else ("frdobj" if r < 0.82 else ("frdobj-smooth" if r < 0.94 else "lti-frd"))
+        case = {"kind": "fr", "num": num, "den": den, "dt": "C", "source": source,
+                "grid": [rng.choice([-2, -2, -1]), rng.choice([2, 2, 3]), rng.choice([400, 500, 600, 800])],
+                "unwrap": bool(rng.random() < 0.7)}
+        ncalls = rng.choice([1, 2, 2, 2, 3])
+        calls = []
+        for _ in range(ncalls):
+            if source == "bode3":
+                api = rng.choice(["margin", "stability_margins", "stability_margins"])
+                pack = rng.choice(["args", "tuple"]) if api == "margin" else rng.choice(["tuple", "tuple", "list"])
+            else:
+                api = rng.choice(["margin", "stability_margins", "stability_margins"])
+                pack = "obj"
+            if source == "lti-frd":
+                api = "stability_margins"
+            calls.append([api, bool(api == "stability_margins" and rng.random() < 0.6), pack])
+        case["calls"] = calls
+        if source == "bode3":
+            case["store"] = rng.choice(FR_STORES)
+        elif source == "lti-frd":
+            case["store"] = rng.choice(["tf", "tf", "ss"])
+            if len(num) >= len(den) + 1:
+                case["store"] = "tf"
+        else:
+            case["store"] = rng.choice(["kept", "kept", "kept", "fresh"])
+        return case
+
     def generate(self, rng, tier):
         n = 1000 if tier == "quick" else 15000
         out = []
@@ -621,6 +869,13 @@ class C12(Family):
                 out.append(self.gen_bw(rng, tier))
             else:
                 out.append(self.gen_sm(rng, tier))
+        # histories of calls: drawn after the single-call stream (which is unchanged for a given seed)
+        for i in range(n // 16):
+            out.append(self.gen_fr(rng, tier))
+        for i in range(n // 25):
+            c = self.gen_sm(rng, tier)
+            c["repeat"] = rng.choice([2, 2, 3])       # the same call again on the same system object
+            out.append(c)
         return out
 
     def corpus(self):
@@ -629,6 +884,9 @@ class C12(Family):
                                                   "method": "best"}, **kw)
         bw = lambda num, den, dt="C", dbdrop="-3", **kw: dict(
             {"kind": "bw", "num": num, "den": den, "dt": dt, "form": "tf", "via": "method", "dbdrop": dbdrop}, **kw)
+        fr = lambda num, den, calls, **kw: dict({"kind": "fr", "num": num, "den": den, "dt": "C", "source": "bode3",
+                                                 "store": "ndarray", "grid": [-2, 2, 800], "unwrap": True,
+                                                 "calls": [list(c) for c in calls]}, **kw)
         return [
             bw(["-1"], ["1", "1"]),                               # negative DC gain
             bw(["1/10"], ["1", "-9/10"], "T"),                      # discrete time
@@ -667,6 +925,24 @@ class C12(Family):
             bw(["1"], ["1", "1"], wscale=-10, norm="monic"),
             bw(["1"], ["1", "1"], wscale=-24, norm="monic"),      # absolute xtol of the bisection (known finding)
             bw(["1"], ["1", "1"], wscale=-30, norm="monic"),      # grid starts above the bandwidth (known finding)
+            # histories on Bode data / FRD objects the caller keeps (C12-m6): second and third call on the same arrays
+            fr(["4"], ["1", "3", "3", "1"], [["margin", False, "args"], ["stability_margins", True, "tuple"],
+                                              ["stability_margins", False, "tuple"]]),
+            fr(["4"], ["1", "3", "3", "1"], [["stability_margins", True, "tuple"], ["stability_margins", True, "list"]],
+               store="rows2d", unwrap=False),
+            fr(["1"], ["1", "2", "1", "0"], [["stability_margins", False, "tuple"], ["margin", False, "tuple"]],
+               store="view", grid=[-3, 3, 1200]),
+            fr(["10", "1", "10"], ["1", "1", "4", "2", "0"], [["stability_margins", True, "tuple"]] * 2,
+               store="readonly", grid=[-2, 2, 1200]),
+            fr(["4"], ["1", "3", "3", "1"], [["stability_margins", False, "list"]], store="lists"),
+            fr(["4"], ["1", "3", "3", "1"], [["stability_margins", True, "obj"], ["margin", False, "obj"]],
+               source="frdobj", store="kept"),
+            fr(["1"], ["1", "2", "1", "0"], [["margin", False, "obj"], ["stability_margins", True, "obj"]],
+               source="frdobj-smooth", store="kept"),
+            fr(["4"], ["1", "3", "3", "1"], [["stability_margins", False, "obj"]], source="lti-frd", store="tf"),
+            sm(["1"], ["1", "2", "1", "0"], repeat=3),
+            sm(["1/2", "1/4"], ["1", "-3/2", "1/2"], "T", returnall=False, repeat=2),
+            sm(["1"], ["1", "2", "1", "0"], form="ss", api="margin", returnall=False, repeat=2),
         ]
 
     # ---- execution ------------------------------------------------------------------------------
@@ -674,11 +950,29 @@ class C12(Family):
         key = exact_key(case)
         if key in self._cache:
             return self._cache[key]
-        res = self._run_sm(case) if case["kind"] == "sm" else self._run_bw(case)
+        if case["kind"] == "fr":
+            res = self._run_fr(case)
+        else:
+            res = self._run_sm(case) if case["kind"] == "sm" else self._run_bw(case)
         if len(self._cache) > 200000:
             self._cache.clear()
         self._cache[key] = res
         return res
+
+    def _call_sm(self, case, sys):
+        with contextlib.redirect_stdout(io.StringIO()), warnings.catch_warnings():
+            warnings.simplefilter("ignore")
+            try:
+                if case["api"] == "stability_margins":
+                    r = ct.stability_margins(sys, returnall=case["returnall"],
+                                             epsw=float(eff_epsw(case)), method=case["method"])
+                    return canon_result(("gm", "pm", "sm", "wpc", "wgc", "wms"), r, case["returnall"])
+                if case["api"] == "margin":
+                    return canon_result(("gm", "pm", "wpc", "wgc"), ct.margin(sys), False)
+                om, g = ct.phase_crossover_frequencies(sys)
+                return {"ok": {"omega": [fl(x) for x in om], "gains": [fl(x) for x in g]}}
+            except Exception as e:  # noqa
+                return {"err": classify_exc(e), "exc": "%s: %s" % (type(e).__name__, str(e)[:200])}
 
     def _run_sm(self, case):
         info = {}
@@ -710,6 +1004,14 @@ class C12(Family):
             except Exception as e:  # noqa
                 impl = {"err": classify_exc(e), "exc": "%s: %s" % (type(e).__name__, str(e)[:200])}
         info["fallback_warned"] = rec.warned_fallback
+        if case.get("repeat"):
+            # history: the same call again on the same system object (outside the recorder)
+            info["later"] = [self._call_sm(case, sys) for _ in range(int(case["repeat"]) - 1)]
+            try:
+                num2, den2 = tf_coeffs(sys)
+                info["sys_modified"] = (num2, den2) != (num, den)
+            except Exception:  # noqa
+                info["sys_modified"] = True
         info["num"], info["den"] = [tok(c) for c in num], [tok(c) for c in den]
         # test polynomials: exact oracle vs what was handed to numpy.roots
         polys = oracle_polys_d(num, den) if disc and len(num) <= len(den) else \
@@ -810,6 +1112,42 @@ class C12(Family):
         info["oracle_polys"] = {k: [tok(c) for c in v] for k, v in polys.items()}
         return {"impl": impl, "line": line, "info": info}
 
+    def _run_fr(self, case):
+        """sampled-data route: a history of calls on Bode data / an FRD object of a continuous-time loop"""
+        info = {}
+        num, den = case_coeffs(case)
+        om, resp, mag, ph = fr_data(case)
+        if not (np.all(np.isfinite(resp)) and np.all(np.isfinite(ph))):
+            return {"impl": {"err": "build", "exc": "non-finite data"},
+                    "line": ["mg smc 1 1 1 1 0 0 0 0", "mg frd 0"], "info": {"build_failed": True}}
+        results, modified = fr_history(case, om, resp, mag, ph)
+        last = len(results) - 1
+        impl = {"calls": results, "modified": modified,
+                "fresh_last": results[last] if len(results) == 1 and case["store"] in ("fresh", "lists") else
+                fr_history(case, om, resp, mag, ph, only_fresh=last)}
+        info["fresh"] = lambda k: impl["fresh_last"] if k == last else \
+            fr_history(case, om, resp, mag, ph, only_fresh=k)
+        info["om"], info["resp"] = om, resp
+        info["num"], info["den"] = [tok(c) for c in num], [tok(c) for c in den]
+        polys = oracle_polys_c(num, den)
+        info["bits"] = max([mant_bits(c) for p in polys.values() for c in p] + [1])
+        roots_for = {k: _ORIG_ROOTS([float(c) for c in v]) for k, v in polys.items()}
+        worst = 0.0
+        for which, want in polys.items():
+            for z in np.atleast_1d(roots_for[which]):
+                zz = (fr(z.real), fr(z.imag))
+                vr, vi = ceval(want, zz)
+                sc = abs_eval_exact(want, fr(abs(z)))
+                if sc > 0:
+                    worst = max(worst, ratio(max(abs(vr), abs(vi)), sc))
+        info["roots_rel_residual"] = worst
+        info["oracle_polys"] = {k: [tok(c) for c in v] for k, v in polys.items()}
+        info["interp"] = fr_interp_error(case, om, resp)
+        line = ["mg smc %s %s 0 %s %s %s" % (toks(num), toks(den), ctoks(roots_for["real"]),
+                                             ctoks(roots_for["mag1"]), ctoks(roots_for["wstab"])),
+                "mg frd " + ctoks(resp)]
+        return {"impl": impl, "line": line, "info": info}
+
     def _run_bw(self, case):
         info = {}
         try:
@@ -859,6 +1197,18 @@ class C12(Family):
 
     # ---- model output -----------------------------------------------------------------------------
     def parse_model(self, case, out):
+        if case["kind"] == "fr":
+            exact_m = self.parse_model(dict(case, kind="sm"), out[0])
+            tk = Tokens(out[1])
+            assert tk.next() == "ok" and tk.next() == "Z"
+            m = {"Z": tk.nat() == 1}
+            for key in ("P", "G", "S"):
+                assert tk.next() == key
+                m[key] = [tk.nat() for _ in range(tk.nat())]
+            assert tk.done()
+            if "ok" not in exact_m:
+                return exact_m
+            return {"ok": dict(exact_m["ok"], brackets=m)}
         if out.startswith("err "):
             return {"err": out.split()[1]}
         tk = Tokens(out)
@@ -943,8 +1293,12 @@ class C12(Family):
                         {"guard": "bw-grid-nonfinite"})
         elif case["kind"] == "bw":
             v = self.compare_bw(case, impl, model, info)
+        elif case["kind"] == "fr":
+            v = self.compare_fr(case, impl, model, info)
         else:
             v = self.compare_sm(case, impl, model, info)
+            if case.get("repeat") and v.status == AGREE:
+                v = self.compare_repeat(case, impl, model, info, v)
         info["guard"] = v.features.get("guard", "none") if v.status == AGREE else "n/a"
         return v
 
@@ -1017,6 +1371,303 @@ class C12(Family):
         if rs is not None and rs[0] and not (abs(rs[0][0] - lo) <= 1e-12 * lo and abs(rs[0][1] - hi) <= 1e-12 * hi):
             return Verdict(DIFFERS, "bracket given to root_scalar %r differs from [%r, %r]" % (rs[0], lo, hi),
                            self.feat(case, "bw-bracket-arg"))
+        return Verdict(AGREE)
+
+    # .... histories ....
+    def compare_repeat(self, case, impl, model, info, v0):
+        """the same call again on the same system object: every later result must satisfy the property too"""
+        for k, later in enumerate(info.get("later", [])):
+            if later == impl:
+                continue
+            v = self.compare_sm(case, later, model, info)
+            if v.status == VIOLATES:
+                f = dict(v.features, history="later-call")
+                return Verdict(VIOLATES, "call %d on the same system object: %s (the first call returned %r)"
+                               % (k + 2, v.detail, impl), f)
+            if not results_close(later, impl, 1e-9):
+                return Verdict(DIFFERS, "call %d on the same system object returns %r, the first call %r"
+                               % (k + 2, later, impl), self.feat(case, "history-dependent-result"))
+        if info.get("sys_modified"):
+            return Verdict(DIFFERS, "the coefficients of the system object changed during the call",
+                           self.feat(case, "system-object-modified"))
+        return v0
+
+    def feat_fr(self, case, kind, call, **kw):
+        f = {"kind": kind, "call": call, "time": "continuous", "source": case["source"], "store": case["store"]}
+        f.update(kw)
+        return f
+
+    def fr_parts(self, case, m, info):
+        """what can be compared for this case: per kind of crossing (P phase, G gain, S stability) the exact
+        crossings of the loop inside the grid, or the reason why that part is guarded"""
+        om, resp = info["om"], info["resp"]
+        br = m["brackets"]
+        n = len(om)
+        a2 = resp.real ** 2 + resp.imag ** 2
+        d2 = (resp.real + 1.0) ** 2 + resp.imag ** 2
+        out = {}
+
+        def exact_list(lst):
+            res = []
+            for c in lst:
+                w = float(Fraction(c[0]))
+                r = None if c[1] is None else (Fraction(c[1][0]), Fraction(c[1][1]))
+                res.append((w, r))
+            return sorted(res, key=lambda t: t[0])
+
+        nf = np.array([float(Fraction(c)) for c in info["num"]])
+        df = np.array([float(Fraction(c)) for c in info["den"]])
+
+        def shallow(w, which):
+            """the Nyquist curve cuts the real axis (P) / the unit circle (G) at a shallow angle at w: the
+            position of the crossing is ill-conditioned with respect to the interpolation error"""
+            z = 1j * w
+            n0, d0 = np.polyval(nf, z), np.polyval(df, z)
+            n1, d1 = np.polyval(np.polyder(nf), z), np.polyval(np.polyder(df), z)
+            L, dL = n0 / d0, 1j * (n1 * d0 - n0 * d1) / (d0 * d0)
+            if dL == 0:
+                return True
+            if which == "P":
+                return abs(dL.imag) < FR_SHALLOW * abs(dL)
+            return abs((dL * L.conjugate()).real) < FR_SHALLOW * abs(dL) * abs(L)
+
+        def located(ex, idx, width, which=None):
+            """exact crossings inside the grid, away from its ends, separated by >= 4 intervals, one per bracket"""
+            inside = [(w, r) for (w, r) in ex if om[0] <= w <= om[-1]]
+            if any(r is None for _, r in inside):
+                return "response-missing"
+            if which and any(shallow(w, which) for w, _ in inside):
+                return "shallow-crossing"
+            if any(w < om[4] or w > om[n - 5] for w, _ in inside):
+                return "crossing-near-grid-end"
+            step = om[1] / om[0]
+            if any(b / a < step ** 4 for (a, _), (b, _) in zip(inside, inside[1:])):
+                return "crossings-closer-than-4-intervals"
+            if len(inside) != len(idx):
+                return "grid-brackets-differ-from-exact-crossings"
+            for (w, _), i in zip(inside, idx):
+                if not (om[i] <= w <= om[min(i + width, n - 1)]):
+                    return "grid-brackets-differ-from-exact-crossings"
+            return inside
+        # phase: signs of Im L on the data, Re L at the sign changes
+        sc = np.where(np.diff(np.sign(-resp.imag)))[0]
+        if br["Z"] or np.min(np.abs(resp.imag) / np.sqrt(a2)) < FR_SIGN or \
+                (len(sc) and np.min(np.abs(resp.real[sc]) / np.sqrt(a2[sc])) < FR_SIGN):
+            out["P"] = "sign-undecided"
+        else:
+            out["P"] = located(exact_list(m["A"]), br["P"], 1, "P")
+        if np.min(np.abs(a2 - 1.0)) < FR_SIGN:
+            out["G"] = "sign-undecided"
+        else:
+            out["G"] = located(exact_list(m["B"]), br["G"], 1, "G")
+        dd = np.diff(d2)
+        if np.min(np.abs(dd) / d2[:-1]) < FR_SLOPE:
+            out["S"] = "slope-undecided"
+        else:
+            out["S"] = located(exact_list(m["S"]), br["S"], 2)
+        return out
+
+    def fr_check_call(self, case, call, res, parts, br, om, num, den, tol=FR_TAU):
+        """None, or (kind, detail): the result of one call violates the property on the loop the data sample.
+        Values are checked through the defining equations on the exact loop at the reported frequency (tolerance
+        `tol`, insensitive to the slope of the curves); the default selection is checked on the exact margins of the
+        crossings the reported frequency belongs to (by grid interval), with a tie window of 5 tol."""
+        api, returnall, _ = call
+        tol_deg = 100.0 * tol
+
+        def which_bracket(w, idx, width):
+            for j, i in enumerate(idx):
+                if om[i] * (1 - 1e-9) <= w <= om[min(i + width, len(om) - 1)] * (1 + 1e-9):
+                    return j
+            return None
+        if "err" in res:
+            if case["store"] == "lists" and "Margin sysdata must be" in res.get("exc", ""):
+                return None          # the code rejects sequences of Python lists (documented as array_like)
+            return ("frd-raises", "raises %s" % res["exc"])
+        got = res["ok"]
+
+        def Lat(w):
+            r = resp_exact(num, den, (F0, fr(w)))
+            return None if r is None else complex(float(r[0]), float(r[1]))
+
+        def values(vk, wk):
+            if returnall:
+                return [unfl(x) for x in got[vk]], [unfl(x) for x in got[wk]]
+            return [unfl(got[vk])], [unfl(got[wk])]
+        # ---- phase crossover / gain margin
+        if isinstance(parts["P"], list) and "gm" in got:
+            ex = parts["P"]
+            gv, gw = values("gm", "wpc")
+            egm = [gm_of(r) for _, r in ex]
+            if returnall:
+                if len(gw) != len(br["P"]) or len(gv) != len(gw):
+                    return ("frd-phase-crossing-" + ("missing" if len(gw) < len(br["P"]) else "extra"),
+                            "wpc = %r: %d phase crossovers reported, the data change the sign of Im L (with Re L <= 0) on "
+                            "%d grid intervals %r; crossovers of the loop: %r" % (
+                                gw, len(gw), len(br["P"]), [(om[i], om[i + 1]) for i in br["P"]], [w for w, _ in ex]))
+                pairs = sorted(zip(gw, gv))
+                for (w, g), i in zip(pairs, br["P"]):
+                    if not (om[i] * (1 - 1e-9) <= w <= om[i + 1] * (1 + 1e-9)):
+                        return ("frd-phase-crossing-freq", "wpc = %r is not in the grid interval [%r, %r] where the "
+                                "data cross the negative real axis" % (w, om[i], om[i + 1]))
+            else:
+                pairs = [(gw[0], gv[0])]
+                if not ex:
+                    if not (math.isinf(gv[0]) and math.isnan(gw[0])):
+                        return ("frd-gm-default-spurious", "gm = %r at wpc = %r, the loop has no phase crossover on "
+                                "the grid" % (gv[0], gw[0]))
+                    pairs = []
+                elif not math.isfinite(gv[0]) or not math.isfinite(gw[0]):
+                    return ("frd-gm-default-missing", "gm = %r, wpc = %r; the loop has phase crossovers at %r with "
+                            "gain margins %r" % (gv[0], gw[0], [w for w, _ in ex], egm))
+                else:
+                    j = which_bracket(gw[0], br["P"], 1)
+                    if j is None:
+                        return ("frd-gm-default-freq", "default wpc = %r is in none of the grid intervals where the "
+                                "data cross the negative real axis; crossovers of the loop: %r"
+                                % (gw[0], [w for w, _ in ex]))
+                    keys = [abs(math.log(g)) if 0 < g < math.inf else math.inf for g in egm]
+                    if keys[j] > min(keys) + 5 * tol:
+                        return ("frd-gm-default-not-smallest",
+                                "default gm = %r at wpc = %r; gain margins of the loop: %r at %r"
+                                % (gv[0], gw[0], egm, [w for w, _ in ex]))
+            for (w, g) in pairs:
+                L = Lat(w)
+                if L is None or not (abs(L.imag) <= tol * abs(L) and L.real < 0 and abs(g * abs(L) - 1.0) <= tol):
+                    return ("frd-phase-crossing-value", "gm = %r at wpc = %r, but L(j wpc) = %r (not real negative "
+                            "with |L| = 1/gm)" % (g, w, L))
+        # ---- gain crossover / phase margin
+        if isinstance(parts["G"], list) and "pm" in got:
+            ex = parts["G"]
+            pv, pw = values("pm", "wgc")
+            epm = [pm_of(r) for _, r in ex]
+            if returnall:
+                if len(pw) != len(br["G"]) or len(pv) != len(pw):
+                    return ("frd-gain-crossing-" + ("missing" if len(pw) < len(br["G"]) else "extra"),
+                            "wgc = %r: %d gain crossovers reported, the data cross |L| = 1 on %d grid intervals %r; "
+                            "crossovers of the loop: %r" % (
+                                pw, len(pw), len(br["G"]), [(om[i], om[i + 1]) for i in br["G"]], [w for w, _ in ex]))
+                pairs = sorted(zip(pw, pv))
+                for (w, g), i in zip(pairs, br["G"]):
+                    if not (om[i] * (1 - 1e-9) <= w <= om[i + 1] * (1 + 1e-9)):
+                        return ("frd-gain-crossing-freq", "wgc = %r is not in the grid interval [%r, %r] where the "
+                                "data cross |L| = 1" % (w, om[i], om[i + 1]))
+            else:
+                pairs = [(pw[0], pv[0])]
+                if not ex:
+                    if not (math.isinf(pv[0]) and math.isnan(pw[0])):
+                        return ("frd-pm-default-spurious", "pm = %r at wgc = %r, the loop has no gain crossover on "
+                                "the grid" % (pv[0], pw[0]))
+                    pairs = []
+                elif not math.isfinite(pv[0]) or not math.isfinite(pw[0]):
+                    return ("frd-pm-default-missing", "pm = %r, wgc = %r; the loop has gain crossovers at %r with "
+                            "phase margins %r" % (pv[0], pw[0], [w for w, _ in ex], epm))
+                else:
+                    j = which_bracket(pw[0], br["G"], 1)
+                    if j is None:
+                        return ("frd-pm-default-freq", "default wgc = %r is in none of the grid intervals where the "
+                                "data cross |L| = 1; crossovers of the loop: %r" % (pw[0], [w for w, _ in ex]))
+                    keys = [abs(x) for x in epm]
+                    if keys[j] > min(keys) + 5 * tol_deg:
+                        return ("frd-pm-default-not-smallest",
+                                "default pm = %r at wgc = %r; phase margins of the loop: %r at %r"
+                                % (pv[0], pw[0], epm, [w for w, _ in ex]))
+            for (w, g) in pairs:
+                L = Lat(w)
+                ok = L is not None and abs(abs(L) - 1.0) <= tol
+                if ok:
+                    d = ((g - pm_of((L.real, L.imag)) + 180.0) % 360.0) - 180.0
+                    ok = abs(d) <= tol_deg
+                if not ok:
+                    return ("frd-gain-crossing-value", "pm = %r at wgc = %r, but L(j wgc) = %r (|L| = 1 and phase "
+                            "-180 + pm do not hold)" % (g, w, L))
+        # ---- stability margin
+        if isinstance(parts["S"], list) and "sm" in got:
+            ex = parts["S"]
+            sv, sw = values("sm", "wms")
+            esm = [sm_of(r) for _, r in ex]
+            if returnall:
+                if len(sw) != len(br["S"]) or len(sv) != len(sw):
+                    return ("frd-stab-" + ("missing" if len(sw) < len(br["S"]) else "extra"),
+                            "wms = %r: %d minima reported, the sampled |1+L| has %d grid minima (at %r); minima of "
+                            "the loop: %r" % (sw, len(sw), len(br["S"]), [om[i + 1] for i in br["S"]],
+                                              [w for w, _ in ex]))
+                pairs = list(zip(sw, sv))
+            else:
+                pairs = [(sw[0], sv[0])]
+                if not ex:
+                    if not math.isinf(sv[0]):
+                        return ("frd-sm-default-spurious", "sm = %r at wms = %r, |1+L| has no interior minimum on "
+                                "the grid" % (sv[0], sw[0]))
+                    pairs = []
+                elif not math.isfinite(sv[0]) or not math.isfinite(sw[0]):
+                    return ("frd-sm-default-missing", "sm = %r, wms = %r; |1+L| has minima %r at %r"
+                            % (sv[0], sw[0], esm, [w for w, _ in ex]))
+            if pairs and ex and abs(min(v for _, v in pairs) - min(esm)) > 2 * tol * max(1.0, min(esm)):
+                return ("frd-sm-not-minimum" if not returnall else "frd-stab-value",
+                        "smallest reported sm = %r; minima of |1+L| over the grid: %r at %r"
+                        % (min(v for _, v in pairs), esm, [w for w, _ in ex]))
+            for (w, v) in pairs:
+                L = Lat(w)
+                if L is None or abs(abs(1.0 + L) - v) > 2 * tol * max(1.0, abs(1.0 + L)):
+                    return ("frd-stab-value", "sm = %r at wms = %r, but |1 + L(j wms)| = %r"
+                            % (v, w, None if L is None else abs(1.0 + L)))
+        return None
+
+    def compare_fr(self, case, impl, model, info):
+        if "err" in model:
+            return Verdict(DIFFERS, "model rejects the loop: %s" % model["err"], {"kind": "frd-harness"})
+        m = model["ok"]
+        for which, p in info["oracle_polys"].items():
+            if m["polys"].get(which) != p:
+                return Verdict(DIFFERS, "harness oracle and Lean model disagree on the %s polynomial" % which,
+                               {"kind": "oracle-vs-model", "poly": which})
+        num, den = [Fraction(x) for x in info["num"]], [Fraction(x) for x in info["den"]]
+        if case["source"] == "lti-frd":
+            for call, res in zip(case["calls"], impl["calls"]):
+                if "err" in res:
+                    msg = res["exc"].split(":", 1)[1].strip()[:50]
+                    return Verdict(VIOLATES, "stability_margins(sys, method='frd') raises %s for a continuous-time "
+                                   "system whose margins exist" % res["exc"],
+                                   self.feat_fr(case, "raises", "stability_margins", method="frd",
+                                                exc=res["exc"].split(":")[0], msg=msg))
+            return Verdict(AGREE, "guarded: method='frd' samples the system on a grid of its own (not compared)",
+                           {"guard": "frd-method-own-grid"})
+        if info["interp"] > FR_INTERP:
+            return Verdict(AGREE, "guarded: the grid does not resolve the response (spline error estimate %.1e)"
+                           % info["interp"], {"guard": "frd-grid-too-coarse"})
+        if info.get("roots_rel_residual", 0.0) > 1e-9:
+            return Verdict(AGREE, "guarded: ill-conditioned root of a test polynomial", {"guard": "roots-residual"})
+        tol = min(FR_TAU_MAX, max(FR_TAU, 1e3 * info["interp"]))
+        parts = self.fr_parts(case, m, info)
+        info["fr_parts"] = "+".join(k for k in "PGS" if isinstance(parts[k], list)) or "none"
+        om = info["om"]
+        br = m["brackets"]
+        for k, (call, res) in enumerate(zip(case["calls"], impl["calls"])):
+            bad = self.fr_check_call(case, call, res, parts, br, om, num, den, tol)
+            if bad is None:
+                continue
+            fres = info["fresh"](k)
+            fresh_bad = self.fr_check_call(case, call, fres, parts, br, om, num, den, tol)
+            hist = "first-call" if k == 0 else "later-call-on-the-same-data"
+            return Verdict(VIOLATES, "call %d of %d (%s%s) on %s data (%s): %s; the same call on fresh copies of the "
+                           "data %s; caller's arrays modified by the calls: %r; earlier calls: %r" % (
+                               k + 1, len(case["calls"]), call[0], ", returnall=True" if call[1] else "",
+                               case["source"], case["store"], bad[1],
+                               "fails too" if fresh_bad else "is correct: %r" % (fres,),
+                               impl["modified"], [c[0] for c in case["calls"][:k]]),
+                           self.feat_fr(case, bad[0], call[0], history=hist,
+                                        fresh_call="also-fails" if fresh_bad else "correct",
+                                        returnall=bool(call[1])))
+        if impl["modified"]:
+            return Verdict(DIFFERS, "the calls modified the caller's data: %r" % impl["modified"],
+                           self.feat_fr(case, "caller-data-modified", case["calls"][0][0]))
+        res, fres = impl["calls"][-1], impl["fresh_last"]
+        if not results_close(res, fres, 1e-9):
+            return Verdict(DIFFERS, "the last call of the history returns %r on the kept data, %r on fresh copies"
+                           % (res, fres), self.feat_fr(case, "history-dependent-result", case["calls"][-1][0]))
+        if info["fr_parts"] == "none":
+            return Verdict(AGREE, "guarded: %r" % {k: v for k, v in parts.items()}, {"guard": "frd-all-parts"})
         return Verdict(AGREE)
 
     # .... margins ....
@@ -1319,6 +1970,12 @@ class C12(Family):
               "order": len(case["den"]) - 1,
               "gain_sign": "neg" if Fraction(case["num"][0]) < 0 else "pos",
               "wscale": "2^%s" % case["wscale"] if case.get("wscale") is not None else "1"}
+        if case["kind"] == "fr":
+            st.update({"source": case["source"], "store": case["store"], "ncalls": len(case["calls"]),
+                       "fr_parts": info.get("fr_parts", "n/a")})
+            return st
+        if case.get("repeat"):
+            st["history"] = "repeat-x%d" % int(case["repeat"])
         if case["dt"] != "C":
             dtv = float(dt_value(case["dt"]))
             st["dt"] = "1" if dtv == 1 else ("<1" if dtv < 1 else ">1")
@@ -1361,6 +2018,22 @@ class C12(Family):
                 for r in (F0, F1, -F1, Fraction(int(q)), q / 2):
                     if r != q and len(tok(r)) <= len(x):
                         yield lst[:i] + [tok(r)] + lst[i + 1:]
+        if case["kind"] == "fr":
+            calls = case["calls"]
+            if len(calls) > 1:
+                for i in range(len(calls)):
+                    yield dict(case, calls=calls[:i] + calls[i + 1:])
+            for i, cl in enumerate(calls):
+                if cl[1]:
+                    yield dict(case, calls=calls[:i] + [[cl[0], False, cl[2]]] + calls[i + 1:])
+            if case["store"] not in ("ndarray", "kept", "tf"):
+                yield dict(case, store={"bode3": "ndarray", "lti-frd": "tf"}.get(case["source"], "kept"))
+            if case.get("unwrap"):
+                yield dict(case, unwrap=False)
+            if case["grid"] != [-2, 2, 600]:
+                yield dict(case, grid=[-2, 2, 600])
+        if case.get("repeat") and int(case["repeat"]) > 2:
+            yield dict(case, repeat=2)
         if case.get("wscale") is not None:
             c = dict(case)
             c.pop("wscale")
@@ -1386,7 +2059,10 @@ class C12(Family):
     def search(self, rng, case, tier):
         out = []
         for _ in range(200):
-            out.append(self.gen_bw(rng, tier) if case["kind"] == "bw" else self.gen_sm(rng, tier))
+            if case["kind"] == "fr":
+                out.append(self.gen_fr(rng, tier))
+            else:
+                out.append(self.gen_bw(rng, tier) if case["kind"] == "bw" else self.gen_sm(rng, tier))
         return out
 
 
